@@ -81,7 +81,15 @@ func init() {
 		}
 		return dial("UDP", false)(c)
 	})
-	reg("(*net.Dialer).DialContext", dial("TCP", true))
+	reg("(*net.Dialer).DialContext", func(c *callCtx) Val {
+		ex := c.ex
+		bounded := sel(ex.ctxBounded(c.st), c.args[1].L[1])
+		if to, ok := ex.fieldOf(c.st, c.args[0], "Timeout"); ok {
+			bounded = or(bounded, app(">", to.L[0], "0"))
+		}
+		c.blockingBound("net.Dialer.DialContext", bounded)
+		return dial("TCP", true)(c)
+	})
 	reg("net.Listen", func(c *callCtx) Val {
 		ex := c.ex
 		ok := ex.freshConst("listenok", sBool)
